@@ -222,7 +222,15 @@ def stack_cmds(rng, h, n, tries=True, fail=False, big_align=True):
             depth += 1
         elif r < 0.78 and depth:
             j = rng.randint(0, depth - 1)
-            cmds.append("uw %d" % j)
+            q = rng.random()
+            if q < 0.75:
+                cmds.append("uw %d" % j)
+            elif q < 0.92:
+                cmds.append("uwr %d %d" % (j, rng.randint(0, 2)))      # through memory_stack_raii_unwind
+            else:
+                cmds.append("rk %d" % j)                               # an unwinder that lives on ...
+                cmds.append("an %d %d" % (rng.choice([1, 8, 24]), rng.choice([1, 8])))
+                cmds.append("rd")                                      # ... and unwinds when it dies
             depth = j + 1
         elif r < 0.82:
             cmds.append("cmp")
